@@ -111,6 +111,52 @@ def harness(sym):
                       lambda: f"{desc()}: method marks with injection {own}, without {b['marks']}")
 
 
+def harness_two(sym):
+    """Two injections whose executions overlap in time: each snippet still runs exactly once."""
+    import openpectus.protocol.models as Mdl
+    first, second = sym.shard["first"], sym.shard["second"]
+    s1, marks1, uod1 = SNIPPETS[first]
+    s2, marks2, uod2 = SNIPPETS[second]
+    s2 = s2.replace("I1", "J1").replace("I2", "J2").replace("I3", "J3").replace("I4", "J4").replace("I5", "J5").replace("IB", "JB").replace("CmdA", "CmdB")
+    marks2 = [m.replace("I", "J") for m in marks2]
+    durations = {"CmdA": sym.int("dur_CmdA", 1, 6), "CmdB": sym.int("dur_CmdB", 1, 6)}
+    t1 = sym.int("inj1_tick", 1, 8)
+    t2 = sym.int("inj2_tick", 1, 12)
+    sym.assume(t2 >= t1)
+    ids = [f"id_{i + 1}" for i in range(len(METHOD))]
+    with engine_rig(sym, None, durations=durations) as rig:
+        e = rig.engine
+        e.set_method(Mdl.Method(lines=[Mdl.MethodLine(id=i, content=c) for i, c in zip(ids, METHOD)], version=0))
+        rig.user("Start")
+        errs = []
+        for t in range(N + 6):
+            if t1 == t:
+                try:
+                    e.inject_code(s1)
+                except Exception as ex:
+                    errs.append(repr(ex))
+            if t2 == t:
+                try:
+                    e.inject_code(s2)
+                except Exception as ex:
+                    errs.append(repr(ex))
+            rig.tick(0.1)
+        desc = lambda: f"{first!r} injected at tick {sym.realize(t1)}, {second!r} at tick {sym.realize(t2)}"   # noqa: E731
+        sym.check(not rig.tick_errors and not errs, "tick-or-inject-raised|two-injections", lambda: f"{desc()}: {rig.tick_errors[:1]} {errs[:1]}")
+        sym.check(not e.has_error_state(), "method-error|two-injections", lambda: f"{desc()}: {e.get_error_state_exception()!r}")
+        marks = rig.marks()
+        for m in marks1 + marks2:
+            cnt = marks.count(m)
+            sym.check(cnt == 1, f"injected-effect-count|two-injections|count={'0' if cnt == 0 else 'many'}",
+                      lambda: f"{desc()}: injected Mark {m} ran {cnt} times; marks {marks}")
+        for name, has in (("CmdA", uod1), ("CmdB", uod2)):
+            if has:
+                inits = [x for x in rig.rec.uod if x[1] == name and x[3] == "init"]
+                finals = [x for x in rig.rec.uod if x[1] == name and x[3] == "final"]
+                sym.check(len(inits) == 1 and len(finals) == 1, "injected-uod-pairing|two-injections",
+                          lambda: f"{desc()}: {name} callbacks {[(x[0], x[3]) for x in rig.rec.uod if x[1] == name]}")
+
+
 def _shards(tier):
     out = []
     for s in SNIPPETS:
@@ -122,7 +168,17 @@ def _shards(tier):
     return out
 
 
-OBLIGATIONS = [Obligation(
+_TWO = Obligation(
+    name="two_injections", kind="crosshair", harness=harness_two, cpu_budget={"quick": 400.0, "thorough": 2400.0},
+    shards=lambda tier: [{"first": a, "second": b} for a in (("uod", "two_marks_uod") if tier == "quick" else SNIPPETS)
+                         for b in (("wait_mark", "mark") if tier == "quick" else SNIPPETS)],
+    encoded=["openpectus.engine.engine:Engine.inject_code", "openpectus.engine.method_manager:MethodManager.parse_inject_code",
+             "openpectus.lang.exec.pinterpreter:PInterpreter.inject_node", "openpectus.lang.exec.tracking:Tracking.create_injected_node_records"],
+    symbolic="ticks of the two injections (second not before the first), durations of the two UOD commands (1..6)",
+    bounds={"quick": "first snippet in {UOD command, Mark+UOD+Mark}, second in {Wait+Mark, Mark}", "thorough": "all 25 ordered pairs of snippets"},
+    assumptions=["the second snippet uses distinct mark names and CmdB instead of CmdA", "fake hardware; log statements removed at import"])
+
+OBLIGATIONS = [_TWO, Obligation(
     name="injection", kind="crosshair", harness=harness, shards=_shards, cpu_budget={"quick": 400.0, "thorough": 2400.0},
     encoded=["openpectus.engine.engine:Engine.inject_code", "openpectus.lang.exec.pinterpreter:PInterpreter.inject_node",
              "openpectus.lang.exec.pinterpreter:PInterpreter.visit_InjectedNode", "openpectus.lang.exec.tracking:Tracking.create_injected_node_records",
